@@ -207,6 +207,7 @@ TraceRet ==
     /\ IsEvent("ret")
     /\ LET R == Rec[l] IN
        /\ Viol("C02", "radau_nodes", C02_RadauNodes(R))
+       /\ Viol("C02", "radau_converged", C02_RadauConverged(R))
        /\ Viol("C03", "evals_in_span", C03_EvalsInSpan(A))
        /\ Viol("C03", "samples", C03_Samples(C, R))
        /\ Viol("C03", "status", C03_Status(C, A, R))
